@@ -218,12 +218,15 @@ PROPS = {
                  "the value, unsorted, two array positions, nil entries), fragment sizes -1..200; (4) html and ansi "
                  "highlighting end to end for standard, simple, en, cjk, web, keyword, edge-ngram and length-changing (regexp char "
                  "filter) analyzers: no panic, and for length-preserving analyzers every fragment without markup is a substring of "
-                 "the stored value and every marked span occurs in it. non-trivial = non-empty input; distinct by (component, input)"),
+                 "the stored value and every marked span occurs in it; every fragment of every hit (fixed and generated documents, a compound-word "
+                 "analyzer with nested term locations among them) is judged by the Lean predicate fragmentOK from the stored value and the "
+                 "hit's term locations: a piece of the value, every marked span a union of term locations. non-trivial = non-empty input; distinct by (component, input)"),
         "trusted_base": COMMON_TB + ["third-party analysis libraries (segment, snowball, x/text) are explored, not modelled"],
         "assumptions": [LEVEL_NOTE],
         "floors": {"ctok/letter": 100, "token_filter/reverse": 100, "fragmenter/locations-outside": 20, "highlight/cjk/html": 5,
                    "highlight-model/utf8": 300, "highlight-model/fragmenter-wellformed": 150, "highlight-model/fragmenter-malformed": 100,
-                   "highlight-model/merge-wellformed": 150, "highlight-model/format-html": 300, "highlight-model/format-html-malformed": 150},
+                   "highlight-model/merge-wellformed": 150, "highlight-model/format-html": 300, "highlight-model/format-html-malformed": 150,
+                   "highlight-model/end-to-end/standard": 50, "highlight-model/end-to-end/compound": 50, "highlight-model/end-to-end/cjk": 50},
         "thorough_shards": 4,
     },
     "C17": {
